@@ -215,6 +215,7 @@ pub fn gen_cfg(rng: &mut Rng, prop: u32, kind_fixed: Option<Kind>) -> RunCfg {
         weights[Fam::Push as usize] *= 4;
         weights[Fam::Extend as usize] *= 2;
     }
+    let (universe, len) = if light() { (universe.min(8), len.min(7)) } else { (universe, len) };
     RunCfg { kind, hasher, ctor, universe, palette, len, weights }
 }
 
@@ -594,7 +595,7 @@ pub fn run_hist(cfg: &RunCfg, mut src: StepSrc, opts: &HistOpts) -> RunResult {
         cx.fails.clear();
         let n = q.len();
         cx.light = n > 200;
-        cx.deep = n <= 64 || i % 8 == 0;
+        cx.deep = if light() { n <= 6 && i % 3 == 0 } else { n <= 64 || i % 8 == 0 };
         res.max_size = res.max_size.max(n);
         if n >= 3 {
             seen_big = true;
